@@ -673,7 +673,8 @@ def specs(draw, prof=None):
         spec["indicators"].append(i)
     no = g.cnt(prof["objectives"])
     if no:
-        spec["objectives"] = gen_objectives(g, spec, H, no, prof.get("objective_direction"))
+        # an objective must be bounded: maximisation only with a declared horizon
+        spec["objectives"] = gen_objectives(g, spec, H, no, "min" if H is None else prof.get("objective_direction"))
     pct = prof.get("indicator_constraints", 0)
     if pct:
         Hh = H if H is not None else 6
